@@ -31,43 +31,64 @@ class Adapter:
                 res['div'].append({'kind': 'divergence', 'action': 'Neo4jGraph', 'component': comp, 'features': [],
                                    'detail': detail, 'case': {'lang': lang, 'assets': case['assets'], 'assocs': case['assocs']},
                                    'full_case': case, 'adapter': 'harness.replay_neo_graph'})
-        try:
-            neo.ingest_attack_graph(g, 'bolt://stub', 'u', 'p', 'db', delete=True)
-        except Exception as e:
-            div('ingest_raises', {'error': repr(e)[:300]})
-            return res
-        st = neo_stub.FakeGraph.STORE['db']
         names = {a['h']: a['name'] for a in case['assets']}
-        want = {}
-        for n in case['exp']['nodes']:
-            want[names[n['asset']] + ':' + n['step']] = n
-        got = {}
-        for n in st['nodes']:
-            d = dict(n)
-            if d.get('full_name') in got:
-                div('duplicate_node', {'full_name': d.get('full_name')})
-            got[d.get('full_name')] = (n, d)
-        if sorted(got) != sorted(want):
-            div('nodes', {'missing': sorted(set(want) - set(got))[:6], 'unexpected': sorted(set(got) - set(want))[:6]})
-            return res
-        for fn, w in want.items():
-            n, d = got[fn]
-            if d.get('name') != w['step'] or d.get('type') != w['kind'] or sorted(n.labels) != [fn.rsplit(':', 1)[0]]:
-                div('node_attributes', {'node': fn, 'got': {k: str(v) for k, v in d.items()}, 'labels': sorted(n.labels)})
-                break
-            if w['kind'] == 'defense':
-                if int(round(float(d.get('defense_status')) * 10)) != w['dstat']:
-                    div('node_defense_status', {'node': fn, 'got': d.get('defense_status'), 'want': w['dstat']})
+
+        def check(gone, tag):
+            """one ingestion compared with the expected graph minus the removed steps (GraphSM!DoRemove: the node and
+            its edges disappear, every other node keeps its id - so ids have gaps and differ from list positions)"""
+            try:
+                neo.ingest_attack_graph(g, 'bolt://stub', 'u', 'p', 'db', delete=True)
+            except Exception as e:
+                div(tag + 'ingest_raises', {'error': repr(e)[:300]})
+                return False
+            st = neo_stub.FakeGraph.STORE['db']
+            want = {}
+            for n in case['exp']['nodes']:
+                fn = names[n['asset']] + ':' + n['step']
+                if fn not in gone:
+                    want[fn] = n
+            got = {}
+            for n in st['nodes']:
+                d = dict(n)
+                if d.get('full_name') in got:
+                    div(tag + 'duplicate_node', {'full_name': d.get('full_name')})
+                got[d.get('full_name')] = (n, d)
+            if sorted(got) != sorted(want):
+                div(tag + 'nodes', {'missing': sorted(set(want) - set(got))[:6], 'unexpected': sorted(set(got) - set(want))[:6]})
+                return False
+            for fn, w in want.items():
+                n, d = got[fn]
+                if d.get('name') != w['step'] or d.get('type') != w['kind'] or sorted(n.labels) != [fn.rsplit(':', 1)[0]]:
+                    div(tag + 'node_attributes', {'node': fn, 'got': {k: str(v) for k, v in d.items()}, 'labels': sorted(n.labels)})
                     break
-            for k in ('ttc', 'is_necessary', 'is_viable', 'compromised_by'):
-                if k not in d:
-                    div('node_attribute_missing', {'node': fn, 'attribute': k})
-        rels = [(dict(r.start_node)['full_name'], dict(r.end_node)['full_name']) for r in st['rels']]
-        lo = {(names[e[0]] + ':' + e[1], names[e[2]] + ':' + e[3]) for e in case['exp']['lo']}
-        hi = {(names[e[0]] + ':' + e[1], names[e[2]] + ':' + e[3]) for e in case['exp']['hi']}
-        rs = set(rels)
-        if (lo - rs) or (rs - hi):
-            div('relationships', {'missing': sorted(lo - rs)[:6], 'unexpected': sorted(rs - hi)[:6]})
+                if w['kind'] == 'defense':
+                    if int(round(float(d.get('defense_status')) * 10)) != w['dstat']:
+                        div(tag + 'node_defense_status', {'node': fn, 'got': d.get('defense_status'), 'want': w['dstat']})
+                        break
+                for k in ('ttc', 'is_necessary', 'is_viable', 'compromised_by'):
+                    if k not in d:
+                        div(tag + 'node_attribute_missing', {'node': fn, 'attribute': k})
+            rels = [(dict(r.start_node)['full_name'], dict(r.end_node)['full_name']) for r in st['rels']]
+            lo = {(names[e[0]] + ':' + e[1], names[e[2]] + ':' + e[3]) for e in case['exp']['lo']}
+            hi = {(names[e[0]] + ':' + e[1], names[e[2]] + ':' + e[3]) for e in case['exp']['hi']}
+            lo = {e for e in lo if e[0] not in gone and e[1] not in gone}
+            hi = {e for e in hi if e[0] not in gone and e[1] not in gone}
+            rs = set(rels)
+            if (lo - rs) or (rs - hi):
+                div(tag + 'relationships', {'missing': sorted(lo - rs)[:6], 'unexpected': sorted(rs - hi)[:6]})
+            return len(rs)
+        nrel = check(set(), '')
+        if nrel is False or res['div']:
+            return res
+        # the same graph after a step was removed from it (first node: every later id is now ahead of its position)
+        if len(g.nodes) >= 2:
+            victim = g.nodes[0]
+            gone = {victim.full_name}
+            g.remove_node(victim)
+            res['steps'] += 1
+            check(gone, 'after_remove_node_')
+        want = [n for n in case['exp']['nodes']]
+        rs = range(nrel)
         if case['exp']['hi']:
             res['nontrivial'] = json.dumps([lang, case['assets'], case['assocs']], sort_keys=True)
         res['sample'] = {'lang': lang, 'nodes': len(want), 'relationships': len(rs)}
